@@ -372,3 +372,6 @@ RULES = [
     {"id": "C05.R6", "fn": r6, "quick": Q, "thorough": TH},
     {"id": "C05.R7", "fn": r7, "quick": Q, "thorough": TH},
 ]
+from .etype import witness_rule
+RULES.append({"id": "C05.W", "fn": witness_rule(['W5GuardPrivate']), "quick": [], "thorough": [], "no_db": True})
+DOC["C05.W"] = 'E-TYPE witness W5: the lifecycle guard and the port set cannot be named by users (E0603), so they cannot be forgotten/leaked from outside the crate'
